@@ -90,9 +90,18 @@ pub fn gen_scene(r: &mut Rng, q: &Joints) -> SceneSpec {
     let links = kin.forward_with_joint_poses(q);
     let size = 0.06;
     let joint_meshes = [rand_mesh(r, size), rand_mesh(r, size), rand_mesh(r, size), rand_mesh(r, size), rand_mesh(r, size), rand_mesh(r, size)];
+    let mut joint_meshes = joint_meshes;
+    // now and then a bulky upstream link (bracket) and link meshes that are not centred on their own origin
+    if r.chance(0.3) { let k = r.below(3); joint_meshes[k] = box_mesh([0.2, 0.2, 0.25], [0.0, 0.0, 0.1], r.chance(0.5)); }
+    if r.chance(0.3) {
+        let k = r.below(6);
+        let c = [r.range(-0.3, 0.3) as f32, r.range(-0.3, 0.3) as f32, r.range(-0.3, 0.3) as f32];
+        joint_meshes[k] = box_mesh([0.05, 0.04, 0.06], c, r.chance(0.5));
+    }
     let has_tool = r.chance(0.6);
     let has_base = r.chance(0.6);
-    let tool = if has_tool { Some(rand_mesh(r, 0.05)) } else { None };
+    // the tool is a small block or a long rod along the flange axis
+    let tool = if has_tool { Some(if r.chance(0.4) { let h = r.range(0.15, 0.35) as f32; box_mesh([0.02, 0.02, h], [0.0, 0.0, h], false) } else { rand_mesh(r, 0.05) }) } else { None };
     let base = if has_base {
         // sometimes next to a link so that base pairs matter
         let anchor = links[1 + r.below(5)].translation.vector;
@@ -108,7 +117,15 @@ pub fn gen_scene(r: &mut Rng, q: &Joints) -> SceneSpec {
         let off = Vector3::new(r.range(-1.0, 1.0), r.range(-1.0, 1.0), r.range(-1.0, 1.0)).normalize() * *r.pick(&[0.03, 0.08, 0.15, 0.3, 1.0]);
         let pose = Isometry3::from_parts((anchor + off).into(), rand_quat(r));
         let big = r.chance(0.3);
-        env.push(CollisionBody { mesh: if big { plate_mesh(r.range(0.3, 1.5) as f32, [0.0; 3]) } else { rand_mesh(r, 0.07) }, pose: iso32(&pose) });
+        if r.chance(0.3) {
+            // object given in world coordinates with an identity pose (mesh far from its local origin)
+            let w = anchor + off;
+            let c = [w.x as f32, w.y as f32, w.z as f32];
+            let mesh = if big { plate_mesh(r.range(0.3, 1.5) as f32, c) } else { box_mesh([0.05, 0.06, 0.04], c, r.chance(0.5)) };
+            env.push(CollisionBody { mesh, pose: Isometry3::identity() });
+        } else {
+            env.push(CollisionBody { mesh: if big { plate_mesh(r.range(0.3, 1.5) as f32, [0.0; 3]) } else { rand_mesh(r, 0.07) }, pose: iso32(&pose) });
+        }
     }
     let mode = *r.pick(&[CheckMode::AllCollsions, CheckMode::AllCollsions, CheckMode::FirstCollisionOnly, CheckMode::NoCheck]);
     let (sfam, safety) = gen_safety(r, env_len, has_tool, has_base, mode);
@@ -205,10 +222,21 @@ pub fn c14(seed: u64, n: usize) {
         let q = rand_joints(&mut r, 2.0);
         let mut sc = gen_scene(&mut r, &q);
         if sc.body.safety.mode == CheckMode::NoCheck { sc.body.safety.mode = CheckMode::FirstCollisionOnly; }
+        // half of the scenes: a long rod as tool and a bulky upstream link, so that a moved joint swings the tool into a
+        // link that did not move
+        if r.chance(0.5) {
+            let h = r.range(0.25, 0.5) as f32;
+            sc.body.tool = Some(box_mesh([0.02, 0.02, h], [0.0, 0.0, h], false));
+            let k = r.below(3);
+            sc.body.joint_meshes[k] = box_mesh([0.15, 0.15, 0.2], [0.0, 0.0, 0.05], false);
+            sc.fam.push_str("/rod+bracket");
+        }
         // limits on the robot now and then
         if r.chance(0.4) {
             let mut f = [0.0; 6]; let mut t = [0.0; 6];
             for k in 0..6 { f[k] = q[k] - r.range(0.05, 1.5); t[k] = q[k] + r.range(0.05, 1.5); }
+            // the initial vector may itself overshoot a limit (it only has to be collision-free)
+            if r.chance(0.3) { let k = r.below(6); f[k] = q[k] + 0.05; t[k] = q[k] + 1.0; }
             sc.ks.cons = Some((f, t, 0.0));
         }
         let kin = sc.ks.build();
